@@ -586,6 +586,23 @@ def r6(F, R):
         R.bad("C15-R6", "%s:tuple-%s" % (b.path, t["callee"]["name"]), "%s @%s" % (b.path, loc(t["span"])), "%s of values of type %s is lexicographic, not component-wise" % (
             t["callee"]["name"], st))
     R.ok("C15-R6", "scan", "storage::*", "%d call sites of the storage backends scanned" % n_calls)
+    # the size an event array is trimmed to is the largest count over the chains: a minimum cuts the events of every longer chain off
+    for b in sorted(F.trait_method_impls("TraceStorage", "finalize"), key=lambda x: x.path):
+        if "zarr" not in b.path:
+            continue
+        group = [b] + K.all_closures_of(F, b.path)
+        mins = [(x, t) for x in group for _bb, t in x.calls() if t["callee"].get("name") in ("min", "min_by", "min_by_key") and
+                ("u64" in str(t["callee"].get("gargs")) or "u64" in str(t["callee"].get("self_ty")) or strip_generics(t["callee"].get("path", "")).startswith(("std::iter::Iterator::min", "core::iter::Iterator::min")))]
+        maxs = [(x, t) for x in group for _bb, t in x.calls() if t["callee"].get("name") == "max" and strip_generics(t["callee"].get("path", "")).endswith("Iterator::max")]
+        key = "%s:event-array-size" % (b.parent.get("self_adt") or b.path).split("::")[-1]
+        site = "%s @%s" % (b.path, b.loc())
+        if mins:
+            R.bad("C15-R6", key, "%s @%s" % (mins[0][0].path, loc(mins[0][1]["span"])), "an event array is resized to a *minimum* over the chains' event counts: the events of every "
+                  "chain with more events are cut off, and what is stored for a chain depends on the other chains")
+        elif len(maxs) >= 2:
+            R.ok("C15-R6", key, site, "event arrays are trimmed to the maximum count over the chains (%d reductions)" % len(maxs))
+        else:
+            R.bad("C15-R6", key, site, "cannot find the maxima (warm-up and sampling) that size the event arrays (found %d)" % len(maxs))
     got = {b.path.split("::")[-1] for (b, _t, _s) in scan(P, lambda b: True)}
     if "c15_pair_max" in got:
         R.ok("C15-R6", "positive-control", "fixtures/positive", "matcher reports the planted (u64, u64)::max")
